@@ -256,7 +256,7 @@ func randKey(r *rand.Rand) []byte {
 }
 
 var valKinds = []string{"str", "str", "str", "int", "uint", "float", "bool", "dur", "time", "err", "bytes", "nil", "map", "struct",
-	"mok", "mfail", "mgarbage", "mempty", "ansi", "chan", "func", "tmok", "tmfail", "stringer", "nilerr", "niltm", "nilm", "raw"}
+	"mok", "mfail", "mgarbage", "mempty", "ansi", "chan", "func", "tmok", "tmfail", "stringer", "nilerr", "niltm", "nilm", "raw", "tmpanic", "errpanic"}
 
 var floats = []float64{0, math.Copysign(0, -1), 1, -1.5, 1e21, 1e-7, math.MaxFloat64, -math.MaxFloat64, math.SmallestNonzeroFloat64, math.NaN(), math.Inf(1), math.Inf(-1), 0.1, 123456789.125}
 var ints = []int64{0, 1, -1, math.MaxInt64, math.MinInt64, 1 << 53, -(1 << 53) - 1, 42}
